@@ -130,4 +130,28 @@ theorem ack_makes_progress (s : Segments) (now ackNr : Nat) (sack : Option Sack)
   simp only [shape, List.length_map, List.length_drop] at hshape
   exact ⟨s', r, h1, by omega, by omega⟩
 
+/-! ### Known finding D18: the progress property is FALSE of the model (and of the code) at a zero window
+
+The full statement "progress does not hinge on one datagram" would need: whenever accepted bytes wait and
+nothing is in flight, some timer is armed. The witness below refutes it: an established connection whose peer
+advertised a zero window, 1000 accepted bytes, one `poll`: nothing is sent, **no timer is armed and no re-poll
+is registered**, the bytes stay in the ring. The same five lines are replayed on the implementation on every
+run (`corpus/vsock/known_d18_zero_window_no_probe.ops`). -/
+
+def d18State : VSock :=
+  let ss := SegSizes.new true 1500 UtpVerif.Gen.MTU_PROBE_COOLDOWN_DEFAULT
+  let opts : Opts := { maxRetx := 5, inactivityTimeout := 10000000000, nagle := true, waitForLastAck := true, mtuProbeMaxRetx := 1, txMax := 1048576, rxBufSize := 1048576 }
+  { state := .established, opts := opts, socketCreated := 0, connIdSend := 8, lastRemoteTimestamp := 0, lastRemoteWindow := 0, seqNr := 101, lastSentSeqNr := 100, lastConsumedRemoteSeqNr := 0, lastSentAckNr := 0, lastSentWindow := 1048576, rx := Rx.build opts.rxBufSize ss.mss, tx := ((TxRing.new 32768).pollWrite (List.replicate 1000 7)).1, segs := Segments.new 101, ss := ss, rtte := Rtte.init.sample 1000000000, pollNow := 1000000000, timers := { sleep := 1000000000 } }
+
+def d18Ctx : Ctx := { now := 1000000000, transport := .ok, cc := { answers := [0, 0, 0, 0] } }
+
+/-- negation witness (kernel evaluation of the model's `poll`) -/
+theorem d18_zero_window_arms_no_timer :
+    (d18State.poll d18Ctx).2.2 = .pending ∧ (d18State.poll d18Ctx).2.1.out = [] ∧
+    (d18State.poll d18Ctx).1.timers.retransmit = none ∧ (d18State.poll d18Ctx).1.timers.inactivity = none ∧
+    (d18State.poll d18Ctx).1.timers.ackDelay = none ∧ (d18State.poll d18Ctx).1.timers.pipeExpiry = none ∧
+    (d18State.poll d18Ctx).1.timers.synAckResend = none ∧ (d18State.poll d18Ctx).1.timers.sleepRegistered = false ∧
+    (d18State.poll d18Ctx).1.tx.ring.length = 1000 := by
+  decide +kernel
+
 end UtpVerif.Props.C02
